@@ -13,10 +13,12 @@
   OBLIGATIONS (audited by `check` with `#print axioms`):
     sequential_view, revert_on_end, revert_on_panic, revert_on_end_is_exit_restores, thread_independent, carried_frame_is_transparent, trace_tree,
     driver_trace_tree, completion_carries_span_ids, one_trace, one_traceL, one_trace_root, parent_is_enclosing, ids_resolveL, span_idsL,
-    ids_distinct, rng_zero_absent  (+ EmitModel.Span.runT_eq_spec, runL_eq_spec, spec_eq_ref, specL_eq_refL, current_push)
+    ids_distinct, rng_zero_absent, rng_holders_transparent, rng_holders_transparentL, rng_none_draws_nothingL,
+    tp_frame_shows_child_ids, tp_enter_exit_symmetric  (+ EmitModel.Span.runT_eq_spec, runL_eq_spec, spec_eq_ref, specL_eq_refL, current_push)
 -/
 import EmitModel.Lemmas.Span
 import EmitModel.Thm.C03
+import EmitModel.Model.Traceparent
 namespace EmitModel.C04
 open EmitModel.Ctxt EmitModel.Span
 
@@ -340,6 +342,120 @@ theorem driver_trace_tree (incoming : List (String × IdVal)) (ts : List Tree) (
   have : (s2.active 0 0).getD [] = insertAll [] incoming := by
     simp [s2, step, swap, setActive, setSlot, St.init, openFrame]
   rw [trace_tree ts hc 0 0 s2 1, this]
+
+/-! ### Holders: how the runtime holds its rng, and the traceparent context -/
+
+mutual
+/-- **rng_holders_transparent** (G18). Every holder but `Option::None` — `&T`, `Some(T)`, `Box<T>`, `Arc<T>`,
+    `AssertInternal<T>`, `dyn ErasedRng` — leaves the tree, hence every record of every theorem above, as it is. -/
+theorem rng_holders_transparent (h : RngHolder) (hne : h ≠ .none_) : ∀ t : Tree, t.hold h = t
+  | .span id en rt rs user ch => by
+    have hr : ∀ r, h.read r = r := by intro r; cases h <;> simp_all [RngHolder.read]
+    simp [Tree.hold, hr, rng_holders_transparentL h hne ch]
+  | .group t ch => by simp [Tree.hold, rng_holders_transparentL h hne ch]
+  | .catch_ ch => by simp [Tree.hold, rng_holders_transparentL h hne ch]
+  | .event _ _ => rfl
+  | .cur _ => rfl
+  | .panic => rfl
+theorem rng_holders_transparentL (h : RngHolder) (hne : h ≠ .none_) : ∀ ts : List Tree, holdL h ts = ts
+  | [] => rfl
+  | x :: xs => by simp [holdL, rng_holders_transparent h hne x, rng_holders_transparentL h hne xs]
+end
+
+mutual
+/-- the holder does not change where a tree panics -/
+theorem hold_panics (h : RngHolder) : ∀ t : Tree, (t.hold h).panics = t.panics
+  | .span _ _ _ _ _ ch => by simp [Tree.hold, Tree.panics, hold_panicsL h ch]
+  | .group _ ch => by simp [Tree.hold, Tree.panics, hold_panicsL h ch]
+  | .catch_ _ => by simp [Tree.hold, Tree.panics]
+  | .event _ _ => rfl
+  | .cur _ => rfl
+  | .panic => rfl
+theorem hold_panicsL (h : RngHolder) : ∀ ts : List Tree, Span.panicsL (holdL h ts) = Span.panicsL ts
+  | [] => rfl
+  | x :: xs => by simp [holdL, Span.panicsL, hold_panics h x, hold_panicsL h xs]
+end
+
+mutual
+/-- **rng_none_draws_nothing** (G18). With `Option::None` as the rng no id is ever generated: every record of
+    the whole tree carries the trace id and span id that were in force outside it (the incoming ones, or none). -/
+theorem rng_none_draws_nothing (tr sp : Option Nat) : ∀ (t : Tree) (pa : Option Nat),
+    ∀ r ∈ ref tr sp pa (t.hold .none_), r.trace = tr ∧ r.span = sp ∧ (r.parent = pa ∨ r.parent = sp.or pa)
+  | .event _ _, pa => by simp [Tree.hold, ref]
+  | .cur _, pa => by simp [Tree.hold, ref]
+  | .panic, pa => by simp [Tree.hold, ref]
+  | .group _ ch, pa => by simpa [Tree.hold, ref] using rng_none_draws_nothingL tr sp ch pa
+  | .catch_ ch, pa => by simpa [Tree.hold, ref] using rng_none_draws_nothingL tr sp ch pa
+  | .span id en rt rs user ch, pa => by
+    intro r hr
+    simp only [Tree.hold, RngHolder.read, ref, randTrace, randSpan, Option.bind_none, Option.or_none,
+      Option.none_or] at hr
+    split at hr
+    · rcases List.mem_append.1 hr with h | h
+      · obtain ⟨h1, h2, h3⟩ := rng_none_draws_nothingL tr sp ch (sp.or pa) r h
+        refine ⟨h1, h2, Or.inr ?_⟩
+        rcases h3 with h3 | h3
+        · exact h3
+        · rw [h3]; cases sp <;> simp
+      · simp at h; subst h; simp
+    · exact rng_none_draws_nothingL tr sp ch pa r hr
+theorem rng_none_draws_nothingL (tr sp : Option Nat) : ∀ (ts : List Tree) (pa : Option Nat),
+    ∀ r ∈ refL tr sp pa (holdL .none_ ts), r.trace = tr ∧ r.span = sp ∧ (r.parent = pa ∨ r.parent = sp.or pa)
+  | [], pa => by simp [holdL, refL]
+  | x :: xs, pa => by
+    intro r hr
+    simp only [holdL, refL] at hr
+    rcases List.mem_append.1 hr with h | h
+    · exact rng_none_draws_nothing tr sp x pa r h
+    · split at h
+      · simp at h
+      · exact rng_none_draws_nothingL tr sp xs pa r h
+end
+
+open EmitModel.Traceparent in
+/-- **tp_frame_shows_child_ids.** Under `TraceparentCtxt` a span's frame does not store its ids in the wrapped
+    context; `open_push` turns them into the frame's traceparent slot and `with_current` synthesises them from
+    the active traceparent. For a span whose ids are in the class `tpClass` — a span id that differs from the
+    active one, the inherited trace id when one is active — inside a sampled, valid (or absent) active
+    traceparent, what is synthesised inside the frame is exactly the child's `SpanCtxt` (trace id, parent =
+    the enclosing span id, span id): the ids the plain context shows after `Frame::push(ctxt_props ++ ids)`
+    (`Span.current_push`). So on the class the two contexts give the same records. -/
+theorem tp_frame_shows_child_ids (c : Cfg) (st : Option Active) (hv : st.filter (fun a => a.tp.valid) = st)
+    (hs : ∀ a, st = some a → a.tp.sampled = true) (tr : Option Id) (sid : Id)
+    (hne : st.bind (·.tp.spanId) ≠ some sid)
+    (htr : ∀ a, st = some a → tr = a.tp.traceId) (calls : Nat) :
+    ∃ a, (incoming c false st tr (some sid) .all calls).1 = some a ∧
+      ambientIds (some a) = ⟨tr, (ambientIds st).spanId, some sid⟩ := by
+  cases st with
+  | none => exact ⟨⟨⟨tr, some sid, 1⟩, none, 0⟩, by simp [incoming, applyMask], by simp [ambientIds, TP.sampled, Ids.empty]⟩
+  | some a0 =>
+    have hs0 := hs a0 rfl
+    have ht0 := htr a0 rfl
+    have hne' : (a0.tp.spanId == some sid) = false := by
+      simpa using hne
+    refine ⟨⟨⟨a0.tp.traceId, some sid, a0.tp.flags % 256⟩, a0.tp.spanId, a0.state⟩, ?_, ?_⟩
+    · simp only [incoming, hv, Option.bind_some]
+      simp [hne', applyMask]
+    · have : (a0.tp.flags % 256) % 2 = a0.tp.flags % 2 := by omega
+      simp only [TP.sampled] at hs0
+      simp [ambientIds, TP.sampled, this, hs0, ht0]
+
+open EmitModel.Traceparent in
+/-- **tp_enter_exit_symmetric.** `TraceparentCtxt::enter` and `exit` are the same swap of the frame's slot with
+    the thread's active traceparent: one after the other restores frame and thread exactly — for every frame,
+    active or not, and every thread state. By induction, a span polled any number of times (`FrameFuture::poll`
+    = enter, poll, exit) shows the same ids in every poll and leaves the thread as it found it after each. -/
+theorem tp_enter_exit_symmetric (f : Frm) (st : Option Active) :
+    ((f.swap st).1.swap (f.swap st).2) = (f, st) ∧
+    (∀ n : Nat, (Nat.repeat (fun p : Frm × Option Active => (p.1.swap p.2).1.swap (p.1.swap p.2).2) n (f, st)) = (f, st)) := by
+  have h1 : ∀ (f : Frm) (st : Option Active), ((f.swap st).1.swap (f.swap st).2) = (f, st) := by
+    intro f st
+    obtain ⟨a, sl⟩ := f
+    cases a <;> simp [Frm.swap]
+  refine ⟨h1 f st, fun n => ?_⟩
+  induction n with
+  | zero => rfl
+  | succ n ih => simp only [Nat.repeat, ih]; exact h1 f st
 
 /-! ### Non-vacuity and the forms incoming ids come in -/
 
